@@ -7,6 +7,7 @@
 package main
 
 import (
+	"encoding/hex"
 	"fmt"
 	"math/big"
 	"strings"
@@ -811,6 +812,103 @@ func genSet(r *lib.RNG) caseT {
 	return caseT{Kind: "set", Names: names, Val: fmt.Sprint(v)}
 }
 
+// ---------- strings ----------
+
+var runePool = []string{"a", "b", "Z", "0", " ", "é", "ß", "日", "本", "€", "😀", "𝄞", "\x00", "'", "%"}
+
+func coqSty(ty string, n int) string {
+	switch ty {
+	case "varchar":
+		return fmt.Sprintf("(VarChar %d)", n)
+	case "varbinary":
+		return fmt.Sprintf("(VarBinary %d)", n)
+	}
+	return "Text"
+}
+
+func mkStrType(ty string, n int) sql.Type {
+	switch ty {
+	case "varchar":
+		return types.MustCreateString(sqltypes.VarChar, int64(n), sql.Collation_utf8mb4_0900_bin)
+	case "varbinary":
+		return types.MustCreateBinary(sqltypes.VarBinary, int64(n))
+	}
+	return types.Text
+}
+
+// Val holds the value as hex.
+func runStr(c *lib.Ctx, cs caseT) {
+	raw, err := hex.DecodeString(cs.Val)
+	if err != nil {
+		panic(err)
+	}
+	t := mkStrType(cs.Ty, cs.P)
+	var v interface{} = string(raw)
+	if cs.Ty == "varbinary" {
+		v = raw
+	}
+	_, _, cerr0 := t.Convert(ctx, v)
+	cs.Storable = cerr0 == nil
+	txt, ok, err := sqlText(t, v)
+	if !ok {
+		id := c.CaseNoModel(cs, "")
+		if cs.Storable {
+			c.PredFail(id, "str/"+cs.Ty+"/sql-error", fmt.Sprintf("%s.SQL(%q): %v", t, raw, err), cs)
+		}
+		return
+	}
+	back, _, cerr := t.Convert(ctx, string(txt))
+	backTerm := "None"
+	if cerr == nil {
+		switch b := back.(type) {
+		case string:
+			backTerm = "(Some " + lib.CoqStr(b) + ")"
+		case []byte:
+			backTerm = "(Some " + lib.CoqBytes(b) + ")"
+		}
+	}
+	key := ""
+	if cs.Storable {
+		key = "str|" + cs.Ty + fmt.Sprint(cs.P) + "|" + cs.Val
+	}
+	id := c.Case(fmt.Sprintf("CStr %s %s %d %d %s %s", coqSty(cs.Ty, cs.P), lib.CoqBytes(raw), len([]rune(string(raw))),
+		t.MaxTextResponseByteLength(ctx), lib.CoqBytes(txt), backTerm), cs, key)
+	c.Count("str_" + cs.Ty)
+	if !cs.Storable {
+		c.Count("str_too_long_input")
+		return
+	}
+	check(c, id, cs, t, v, txt, back, cerr, "str/"+cs.Ty)
+}
+
+func genStr(r *lib.RNG) caseT {
+	cs := caseT{Kind: "str", Ty: lib.Pick(r, []string{"varchar", "varchar", "varbinary", "text"})}
+	cs.P = lib.Pick(r, []int{1, 2, 3, 5, 8, 16, 40})
+	target := cs.P + r.Intn(3) - 1 // around the limit: one below, exact, one above
+	if r.Chance(1, 3) {
+		target = r.Intn(cs.P + 1)
+	}
+	if cs.Ty == "text" {
+		cs.P = 0
+		target = r.Intn(60)
+	}
+	var sb []byte
+	if cs.Ty == "varbinary" && r.Bool() { // arbitrary bytes, malformed UTF-8 included (rune counting only matters here)
+		for i := 0; i < target; i++ {
+			sb = append(sb, lib.Pick(r, []byte{0x00, 0x41, 0x7f, 0x80, 0xbf, 0xc0, 0xc2, 0xe0, 0xa0, 0xed, 0x9f, 0xf0, 0x90, 0xf4, 0x8f, 0xf5, 0xff, 0xe2, 0x82, 0xac}))
+		}
+	} else {
+		for i := 0; i < target; i++ {
+			if cs.Ty == "varbinary" && len(sb) >= target {
+				break
+			}
+			sb = append(sb, lib.Pick(r, runePool)...)
+		}
+	}
+	cs.Val = hex.EncodeToString(sb)
+	return cs
+}
+
 // ---------- dispatch ----------
 
 func run(c *lib.Ctx, cs caseT) {
@@ -831,6 +929,8 @@ func run(c *lib.Ctx, cs caseT) {
 		runEnum(c, cs)
 	case "set":
 		runSet(c, cs)
+	case "str":
+		runStr(c, cs)
 	case "wire":
 		runWire(c, cs)
 	case "wireslow":
@@ -841,7 +941,9 @@ func run(c *lib.Ctx, cs caseT) {
 }
 
 func gen(r *lib.RNG) caseT {
-	switch r.Intn(20) {
+	switch r.Intn(22) {
+	case 20, 21:
+		return genStr(r)
 	case 0, 1, 2, 3:
 		return genInt(r)
 	case 4, 5, 6, 7, 8:
@@ -869,7 +971,7 @@ func dateUs(y, m, d int) string {
 
 func main() {
 	lib.Main("C28", func(c *lib.Ctx) {
-		c.Header = "From Coq Require Import List NArith ZArith.\nImport ListNotations.\nFrom GMS Require Import Codec.C28Wire Corr.C28.\nOpen Scope N_scope."
+		c.Header = "From Coq Require Import List NArith ZArith.\nImport ListNotations.\nFrom GMS Require Import Codec.C28Wire Codec.C28Str Codec.C28Bin Corr.C28.\nOpen Scope N_scope."
 		c.CaseType = "C28.case"
 		c.MismatchFn = "C28.mismatches"
 		c.SetRule("values of every modelled type handed to Type.SQL: integers of all 10 width/sign combinations (type bounds, " +
@@ -927,6 +1029,12 @@ func main() {
 			{Kind: "int", Ty: "u64", Val: "9223372036854775808"},
 			{Kind: "int", Ty: "u64", Val: "9223372036854775807"},
 			{Kind: "int", Ty: "u64", Val: "12345678901234567890"},
+			{Kind: "str", Ty: "varchar", P: 2, Val: hex.EncodeToString([]byte("日本"))},
+			{Kind: "str", Ty: "varchar", P: 2, Val: hex.EncodeToString([]byte("日本語"))},
+			{Kind: "str", Ty: "varchar", P: 3, Val: hex.EncodeToString([]byte("😀😀😀"))},
+			{Kind: "str", Ty: "varbinary", P: 4, Val: "ff61f09f"},
+			{Kind: "str", Ty: "varbinary", P: 3, Val: "ff61f09f"},
+			{Kind: "str", Ty: "text", Val: hex.EncodeToString([]byte("x y €"))},
 			{Kind: "wireslow", P: 700},
 			{Kind: "wireslow", P: 300},
 			{Kind: "bit", P: 64, Val: "18446744073709551615"},
